@@ -63,6 +63,15 @@ func deepHash(h hash.Hash64, v reflect.Value, depth int, seen map[uintptr]bool) 
 	if depth > 12 {
 		return
 	}
+	// The internals of the standard synchronisation types (sync.Pool, sync.Once,
+	// sync.Mutex, atomics) change with garbage collections and with first use; they
+	// are runtime bookkeeping, not library tables. What such an object GUARDS is
+	// hashed through the other variables; misuse shows in results, in returned
+	// values that change later, in the footprint and in the race pass.
+	if pp := v.Type().PkgPath(); pp == "sync" || pp == "sync/atomic" {
+		wr(h, 0x5c)
+		return
+	}
 	switch v.Kind() {
 	case reflect.Bool:
 		if v.Bool() {
@@ -267,7 +276,7 @@ func c19SchedulesPass(out *c19WorkerOut, thorough bool, shard, shards int) {
 		want := make([]string, len(p.Threads))
 		for i, t := range p.Threads {
 			t := t
-			bodies[i] = func() string { return alpha[t.Call].Do(in, t.Variant) }
+			bodies[i] = func() string { return c19Str(alpha[t.Call].Do(in, t.Variant)) }
 			want[i] = seq[t.Call][t.Variant]
 		}
 		nviol := 0
@@ -408,7 +417,7 @@ func c19JudgeInstr(kind string, cs c19Case) (got, want string) {
 			if ci < 0 {
 				return "unknown call " + tn, ""
 			}
-			bodies = append(bodies, func() string { return alpha[ci].Do(in, v) })
+			bodies = append(bodies, func() string { return c19Str(alpha[ci].Do(in, v)) })
 			want = append(want, seq[ci][v])
 		}
 		base := c19HashGlobals()
